@@ -9,19 +9,15 @@ theorem covers arbitrary event-level interleavings of threads that touch disjoin
 namespace PF.C05
 open PF PF.Map PF.ResumeFS
 
-/-- **C05 for any schedule of the pool runner** (repaired protocol, every storage mix): for every scheduler that runs the
-    task bodies of each generation in *any order* (each body = the user call followed by its element dumps; the parent's
-    dumps of single outputs after the bodies; the next generation after that), every folder state satisfying the invariant:
-    1. every prefix of the event list of the scheduled run — the process dying at any point of any schedule — satisfies the invariant;
-    2. a user function is called only for elements that were not completely stored in the folder the run started on;
-    3. the run returns exactly the outputs of the uninterrupted sequential run (or stops with the injected exception).
-    Hence (the invariant is the hypothesis of `C05_resume`) the resumed run — sequential or again scheduled — completes with
-    the uninterrupted result, whatever the schedule of the crashed run was. -/
-theorem C05_par_resume (cfg : Cfg) (hl : cfg.legacy = false) (sched : Sched) (hsched : PermSched sched)
+/-- **A pool run loses nothing that is stored either** — `C05_par_resume` with monotonicity at every crash point of every
+    body-order schedule: besides the invariant, every non-temporary file of the folder the scheduled run started on still exists
+    after any prefix of its events (`Mono`), so a pool run that is killed cannot have un-stored anything
+    (`C05_par_history_no_recompute`). -/
+theorem C05_par_resume_keeps (cfg : Cfg) (hl : cfg.legacy = false) (sched : Sched) (hsched : PermSched sched)
     (fsd : List MFunc) (inputs : List (String × Val)) (ui : List (String × List Nat)) (r0 : MapResult)
     (h0 : runMap fsd inputs ui = .ok r0) (hnd : ((freshSlots fsd inputs ui).map (·.1)).Nodup)
     (fs : FS) (hg : Good fsd inputs ui fs) :
-    (∀ k, Good fsd inputs ui (crashAt fs (runOnP cfg sched fs fsd inputs ui).evs k)) ∧
+    (∀ k, Good fsd inputs ui (crashAt fs (runOnP cfg sched fs fsd inputs ui).evs k) ∧ Mono fs (crashAt fs (runOnP cfg sched fs fsd inputs ui).evs k)) ∧
     (∀ c ∈ (runOnP cfg sched fs fsd inputs ui).calls, ∃ f ∈ (generations fsd).flatten, c.fn = f.name ∧ doneInC cfg fs f c.li = false) ∧
     ((∃ x, (runOnP cfg sched fs fsd inputs ui).res = .ok x ∧ x.outputs = r0.outputs) ∨
      (cfg.failAt ≠ none ∧ ∃ fn, (runOnP cfg sched fs fsd inputs ui).res = .error (.raised fn))) := by
@@ -74,9 +70,28 @@ theorem C05_par_resume (cfg : Cfg) (hl : cfg.legacy = false) (sched : Sched) (hs
   rcases L3 with ⟨rs', hres, ho⟩ | ⟨hne, fn, hres⟩
   · simp only [hres]
     have hev2 := prefix_then_safe hev hpersist
-    exact ⟨fun k => ⟨(hev2 k).inv, (hev2 k).metaOk⟩, L2, Or.inl ⟨_, rfl, by rw [hout, ← ho]⟩⟩
+    exact ⟨fun k => ⟨⟨(hev2 k).inv, (hev2 k).metaOk⟩, (hev2 k).mono⟩, L2, Or.inl ⟨_, rfl, by rw [hout, ← ho]⟩⟩
   · simp only [hres]
-    exact ⟨fun k => ⟨(hev k).inv, (hev k).metaOk⟩, L2, Or.inr ⟨hne, fn, rfl⟩⟩
+    exact ⟨fun k => ⟨⟨(hev k).inv, (hev k).metaOk⟩, (hev k).mono⟩, L2, Or.inr ⟨hne, fn, rfl⟩⟩
+
+/-- **C05 for any schedule of the pool runner** (repaired protocol, every storage mix): for every scheduler that runs the
+    task bodies of each generation in *any order* (each body = the user call followed by its element dumps; the parent's
+    dumps of single outputs after the bodies; the next generation after that), every folder state satisfying the invariant:
+    1. every prefix of the event list of the scheduled run — the process dying at any point of any schedule — satisfies the invariant;
+    2. a user function is called only for elements that were not completely stored in the folder the run started on;
+    3. the run returns exactly the outputs of the uninterrupted sequential run (or stops with the injected exception).
+    Hence (the invariant is the hypothesis of `C05_resume`) the resumed run — sequential or again scheduled — completes with
+    the uninterrupted result, whatever the schedule of the crashed run was. -/
+theorem C05_par_resume (cfg : Cfg) (hl : cfg.legacy = false) (sched : Sched) (hsched : PermSched sched)
+    (fsd : List MFunc) (inputs : List (String × Val)) (ui : List (String × List Nat)) (r0 : MapResult)
+    (h0 : runMap fsd inputs ui = .ok r0) (hnd : ((freshSlots fsd inputs ui).map (·.1)).Nodup)
+    (fs : FS) (hg : Good fsd inputs ui fs) :
+    (∀ k, Good fsd inputs ui (crashAt fs (runOnP cfg sched fs fsd inputs ui).evs k)) ∧
+    (∀ c ∈ (runOnP cfg sched fs fsd inputs ui).calls, ∃ f ∈ (generations fsd).flatten, c.fn = f.name ∧ doneInC cfg fs f c.li = false) ∧
+    ((∃ x, (runOnP cfg sched fs fsd inputs ui).res = .ok x ∧ x.outputs = r0.outputs) ∨
+     (cfg.failAt ≠ none ∧ ∃ fn, (runOnP cfg sched fs fsd inputs ui).res = .error (.raised fn))) := by
+  obtain ⟨a, b, c⟩ := C05_par_resume_keeps cfg hl sched hsched fsd inputs ui r0 h0 hnd fs hg
+  exact ⟨fun k => (a k).1, b, c⟩
 
 /-- **Crash at any point of any schedule, then resume** — the folder left by the pool runner dying after `k` events of any
     body-order schedule resumes (sequentially) to the uninterrupted outputs, calling nothing that was stored. -/
